@@ -1,4 +1,6 @@
 import TephraProps.C03
+import TephraProps.C04
+import TephraProps.C05
 import TephraProps.C17
 import TephraProps.C18
 import TephraProps.C19
